@@ -212,6 +212,16 @@ def gen_cases(tier, seed):
         cases.append({'seed': rng.randrange(1 << 30), 'min_part': C, 'config': dict(multipart_threshold=T, multipart_chunksize=C, max_request_concurrency=rng.choice([1, 2])),
                       'transfers': [t], 'prior_use': rng.choice(['legacy', 'manager', 'overlap']), 'family': 'shared-client'})
 
+    # a multipart copy / upload of MORE THAN 10,000 x multipart_chunksize bytes: the library doubles the part size to stay within 10,000
+    # parts - and reports the doubled parts' sizes
+    for i in range(1 if quick else 3):
+        C = 8
+        kind = 'copy' if i == 0 else rng.choice(['copy', 'upload'])
+        t = {'kind': kind, 'size': 10001 * C + rng.choice([0, 5])}
+        if kind == 'upload':
+            t['src'] = 'path'
+        cases.append({'seed': rng.randrange(1 << 30), 'min_part': C, 'family': 'more-than-10000-parts', 'wall_timeout': 200.0,
+                      'config': dict(multipart_threshold=C, multipart_chunksize=C, max_request_concurrency=4), 'transfers': [t]})
     # ONE subscriber object given to several transfers of a manager (a progress printer): each transfer's progress goes to the callbacks
     # with ITS future and sums to ITS size
     for i in range(30 if quick else 300):
